@@ -87,7 +87,7 @@ type SName string
 // which sources can be given a leaf of this kind at all (the others are still run: they must not panic)
 func envSupports(kind string) bool {
 	switch kind {
-	case "time", "durs", "structs":
+	case "time", "durs", "structs", "pdurs":
 		return false
 	}
 	return true
@@ -95,7 +95,7 @@ func envSupports(kind string) bool {
 
 func flagSupports(kind string) bool {
 	switch kind {
-	case "durs", "structs", "nstrs", "nmap", "lnamed", "mnamed", "knamed":
+	case "durs", "structs", "nstrs", "nmap", "lnamed", "mnamed", "knamed", "pdurs":
 		return false // no flag is registered for such a leaf
 	}
 	return true
@@ -227,6 +227,8 @@ func kindType(k string) reflect.Type {
 		return reflect.TypeOf(map[string]SCount(nil))
 	case "knamed":
 		return reflect.TypeOf(map[SName]string(nil))
+	case "pdurs":
+		return reflect.TypeOf([]*time.Duration(nil))
 	case "pint":
 		return reflect.TypeOf((*int)(nil))
 	case "pstrs":
@@ -244,7 +246,14 @@ func srcStructField(f srcField) reflect.StructField {
 		tags = append(tags, fmt.Sprintf(`dials:"%s"`, renderTag(f.Tag)))
 	}
 	if f.SrcTag {
-		tags = append(tags, fmt.Sprintf(`dialsenv:"ENVX_%d" dialsflag:"flagx-%d" dialspflag:"pflagx-%d" json:"J%d" yaml:"Y%d" toml:"T%d"`, f.ID, f.ID, f.ID, f.ID, f.ID, f.ID))
+		tags = append(tags, fmt.Sprintf(`dialsenv:"ENVX_%d" dialsflag:"flagx-%d" dialspflag:"pflagx-%d"`, f.ID, f.ID, f.ID))
+		if f.ID%2 == 1 {
+			// a format tag with options but no name: it is present, so the dials tag is not copied over it and the
+			// format's own default key applies
+			tags = append(tags, `json:",omitempty" yaml:",omitempty" toml:",omitempty"`)
+		} else {
+			tags = append(tags, fmt.Sprintf(`json:"J%d" yaml:"Y%d" toml:"T%d"`, f.ID, f.ID, f.ID))
+		}
 	}
 	if len(f.Alias) > 0 {
 		tags = append(tags, fmt.Sprintf(`dialsalias:"%s"`, strings.Join(f.Alias, "_")))
@@ -331,6 +340,9 @@ func leafValue(kind string, id int) (reflect.Value, string, interface{}) {
 		return reflect.ValueOf(map[string]SCount{fmt.Sprintf("k%d", id): SCount(id)}), fmt.Sprintf(`"k%d":%d`, id, id), map[string]interface{}{fmt.Sprintf("k%d", id): id}
 	case "knamed":
 		return reflect.ValueOf(map[SName]string{SName(fmt.Sprintf("k%d", id)): "v"}), fmt.Sprintf(`"k%d":"v"`, id), map[string]interface{}{fmt.Sprintf("k%d", id): "v"}
+	case "pdurs": // a collection of pointers with a hole in it
+		d := time.Duration(id) * time.Second
+		return reflect.ValueOf([]*time.Duration{nil, &d}), "", []interface{}{nil, d.String()}
 	case "pint": // pointer kinds: the pointee (results are compared after dereferencing)
 		return reflect.ValueOf(2000 + id), fmt.Sprint(2000 + id), 2000 + id
 	case "pstrs":
@@ -863,6 +875,12 @@ func (r *srcRun) docTree(format string) (map[string]interface{}, bool) {
 			key := renderTag(f.Tag)
 			if f.SrcTag && f.Nest == "" {
 				key = fmt.Sprintf("%s%d", map[string]string{"json": "J", "cue": "J", "yaml": "Y", "toml": "T"}[format], f.ID)
+				if f.ID%2 == 1 {
+					key = goName(f.Name) // the format's default key for the field
+					if format == "yaml" {
+						key = strings.ToLower(key)
+					}
+				}
 			}
 			if f.Nest != "" {
 				if f.PAlias {
@@ -1017,6 +1035,9 @@ func (r *srcRun) runDecoders() {
 	for _, l := range r.c.Expect.Leaves {
 		if l.Kind == "structs" && (l.Pat == "empty" || l.Pat == "bothempty") {
 			tomlOut = true
+		}
+		if l.Kind == "pdurs" && l.Pat != "neither" && l.Pat != "empty" {
+			tomlOut = true // TOML has no null
 		}
 	}
 	for _, name := range []string{"json", "yaml", "toml", "cue"} {
